@@ -9,7 +9,7 @@ implemented = set()
 for f in os.listdir(os.path.join(root, 'harness', 'checks')):
     m = re.match(r'c(\d+)\.go$', f)
     if m: implemented.add('C' + m.group(1))
-hooks = subprocess.run(['git', '-C', '/repo', 'log', '--format=%H', '--grep=^verif hooks'], capture_output=True, text=True).stdout.split()
+hooks = subprocess.run(['git', '-C', '/repo', 'log', '--format=%H', '--grep=^verif hook'], capture_output=True, text=True).stdout.split()
 man = {
  "version": 1,
  "setup_cmd": "./setup.sh",
